@@ -237,6 +237,46 @@ func c12(x *mon.Ctx) {
 	})
 	x.Require("same-issuer-same-serial", 72, 0, 72)
 
+	// ---- (b'') worlds whose collateral signer hangs under a SECOND root (the PCK chain under the first); the caller first trusts
+	//      both roots, then drops the second one from its pool — on the same options value and on a fresh one
+	x.Each(x.Pick(8, 100), func(i int) {
+		r := x.Rand(fmt.Sprint("two-roots", i))
+		w := richHonest(r)
+		if i%2 == 0 { // the usual caller: one instant for all five entries
+			for j := range w.Times {
+				w.Times[j] = w.Times[0]
+			}
+		}
+		root2 := world.Issue(world.RootTemplate(world.Far), nil, world.NewKey())
+		w.PKI.TcbSign = world.Issue(world.TcbSignTemplate(world.Far), root2, world.NewKey())
+		w.Resign()
+		w.TcbHdr = map[string][]string{world.HdrTcbInfo: {world.IssuerChain(w.PKI.TcbSign, root2)}}
+		w.QeHdr = map[string][]string{world.HdrQeID: {world.IssuerChain(w.PKI.TcbSign, root2)}}
+		both, first, second := certs(w.PKI.Root, root2), certs(w.PKI.Root), certs(root2)
+		shared := &verify.Options{}
+		var hist []string
+		for step, pool := range [][]*x509Cert{both, first, both, second, both, first} {
+			ws := w.Clone()
+			ws.Roots = pool
+			c := ws.Case(world.LColl, "two-root-history", fmt.Sprintf("h%d/step%d/pool%d", i, step, len(pool)*10+step%2))
+			c.GetCollateral, c.CheckCRL = true, false
+			switch step {
+			case 0, 2, 4:
+				c.Expect = "accept"
+			default:
+				c.Expect = "reject"
+			}
+			out, _ := check(x, i, c)
+			outS := mon.RunVerifyShared(c, shared)
+			hist = append(hist, fmt.Sprintf("pool%d:shared=%v/fresh=%v", len(pool), outS.Accepted, out.Accepted))
+			if outS.Accepted != out.Accepted {
+				x.Violation("two-root-history", c.Param, fmt.Sprintf("verdict through the re-used options value (accepted=%v, %s) differs from the fresh verdict (accepted=%v, %s); pools so far: %v", outS.Accepted, outS.Err, out.Accepted, out.Err, hist), "verify", c)
+				break
+			}
+		}
+	})
+	x.Require("two-root-history", 24, 24, 48)
+
 	// ---- (c) histories through one shared Options value
 	nh := x.Pick(200, 5000)
 	x.Each(nh, func(i int) {
